@@ -57,9 +57,19 @@ def main():
                 c = bind[key] = {'name': [ord(ch) for ch in name], 'kind': kind, 'reports': [], 'ident': name}
             return c
 
+        # where identifier / keyword tokens start: a position inside another token (the d of `def`) is not the identifier
+        tokstart = None
+        try:
+            import io
+            import tokenize
+            tokstart = {t.start: t.string for t in tokenize.generate_tokens(io.StringIO('\n'.join(lines)).readline) if t.type == tokenize.NAME}
+        except Exception:  # noqa
+            tokstart = None
+
         def report(c, via, pos, n):
             ok, text = cut(lines, pos[0], pos[1], n)
-            c['reports'].append({'via': via, 'line': pos[0], 'col': pos[1], 'inrange': ok, 'text': text})
+            c['reports'].append({'via': via, 'line': pos[0], 'col': pos[1], 'inrange': ok, 'text': text,
+                                 'tok': bool(tokstart is None or tokstart.get(tuple(pos)) == ('except' if c['kind'] == 'except' else c['ident']))})
         for flow, nm in scope.all_names:
             if getattr(nm, 'is_star', False):
                 continue            # star-imported names have no identifier in the text
